@@ -508,6 +508,8 @@ where
 	// records as well as missing ones (an interrupted earlier scan may have restored
 	// outputs without getting as far as raising the account's child index)
 	let mut found_parents: HashMap<Identifier, u32> = HashMap::new();
+	// commitments the chain holds unspent for this wallet (any account)
+	let chain_commits: Vec<pedersen::Commitment> = chain_outs.iter().map(|c| c.commit).collect();
 
 	// check all definitive outputs exist in the wallet outputs
 	for deffo in chain_outs.into_iter() {
@@ -601,9 +603,13 @@ where
 			batch.commit()?;
 		}
 
+		// only the active account was refreshed above: an Unconfirmed record of another account
+		// may well be confirmed on chain already and must then be left for that account's refresh
 		let unconfirmed_outs: Vec<&OutputCommitMapping> = wallet_outputs
 			.iter()
-			.filter(|o| o.output.status == OutputStatus::Unconfirmed)
+			.filter(|o| {
+				o.output.status == OutputStatus::Unconfirmed && !chain_commits.contains(&o.commit)
+			})
 			.collect();
 		// Delete unconfirmed outputs
 		for m in unconfirmed_outs.into_iter() {
